@@ -95,6 +95,8 @@ public:
    */
   template<class T> static T logsum(T lnx, T lny)
   {
+    if (lnx == lny && std::isinf(lnx))
+      return lnx; // ln(0 + 0) = -inf, ln(inf + inf) = inf (the difference of the two would be NaN)
     return (lny < lnx) ?
            lnx + std::log(1. + exp(lny - lnx)) :
            lny + std::log(1. + exp(lnx - lny));
